@@ -101,7 +101,12 @@ def compare_exact(c, a, b, pre="", skip=(), contacts_as_multiset=True):
   if "rows" in a and "rows" in b and "rows" not in skip:
     for w, (ra, rb) in enumerate(zip(a["rows"], b["rows"])):
       for f in ROW_VALS + ("type", "id", "state"):
-        c.bits(f"{pre}efc[{w}].{f}", ra[f], rb[f], vkey=f"rows:{f}")
+        x, y = ra[f], rb[f]
+        if f == "id" and len(x) == len(y) and len(x) == len(ra["type"]) == len(rb["type"]):
+          # a contact row's id indexes the contact buffer shared by all worlds: not a per-world observable
+          x = np.where(ra["type"] >= 5, -1, x)
+          y = np.where(rb["type"] >= 5, -1, y)
+        c.bits(f"{pre}efc[{w}].{f}", x, y, vkey=f"rows:{f}")
 
 
 def _match_groups(c, pre, name, A, B, keyfn, vecfn, valfields, tol):
